@@ -136,6 +136,9 @@ counters!(
     runs_mixed,
     runs_concurrent,
     runs_longhistory,
+    runs_marathon,
+    max_loads_in_one_run,
+    max_ops_in_one_run,
     conc_threads,
     conc_yield_points,
     conc_switches,
@@ -203,6 +206,10 @@ impl Counters {
                 if *x > self.v[i] {
                     self.v[i] = *x;
                     self.v[C::budget_of_that_load as usize] = o.v[C::budget_of_that_load as usize];
+                }
+            } else if i == C::max_loads_in_one_run as usize || i == C::max_ops_in_one_run as usize {
+                if *x > self.v[i] {
+                    self.v[i] = *x;
                 }
             } else if i != C::budget_of_that_load as usize {
                 self.v[i] += x;
@@ -860,6 +867,15 @@ impl Sim {
                 2 => w.ctr.inc(C::runs_stat_reports_other_size),
                 _ => {}
             }
+            if sc.stratum != "thread" {
+                let n_loads = sc.ops.iter().filter(|o| matches!(o, Op::Load { .. })).count() as u64;
+                if n_loads > w.ctr.get(C::max_loads_in_one_run) {
+                    w.ctr.v[C::max_loads_in_one_run as usize] = n_loads;
+                }
+                if sc.ops.len() as u64 > w.ctr.get(C::max_ops_in_one_run) {
+                    w.ctr.v[C::max_ops_in_one_run as usize] = sc.ops.len() as u64;
+                }
+            }
             if sc.stratum.starts_with("bytesweep") {
                 w.ctr.inc(C::runs_bytesweep);
             } else if sc.stratum == "quiet" {
@@ -870,6 +886,8 @@ impl Sim {
                 w.ctr.inc(C::runs_concurrent);
             } else if sc.stratum == "longhistory" {
                 w.ctr.inc(C::runs_longhistory);
+            } else if sc.stratum == "marathon" {
+                w.ctr.inc(C::runs_marathon);
             } else if sc.stratum == "thread" {
                 w.ctr.v[C::runs as usize] -= 1; // a client thread of a Concurrent op, not a run
             } else {
